@@ -177,3 +177,40 @@ impl BlobId {
 pub fn vblobid_from(id: Id) -> (r: BlobId) ensures r.0 == id.0, { BlobId(id.0) }   // `id.into()`
 // NonZeroU32::new: None for 0 (NonZeroU32 itself is modelled as u32 with the type invariant != 0 in preconditions)
 pub fn vnonzero_new(x: u32) -> (r: Option<u32>) ensures r == (if x == 0 { None::<u32> } else { Some(x) }), { if x == 0 { None } else { Some(x) } }
+
+// ---- PackHeader::from_binary: the entry list read back from the (decrypted) header bytes ----
+// binrw: HeaderEntry::read(&mut reader) yields the entries encoded in the bytes one after the other, then EOF
+// (the byte layout of one entry is the bounded Kani harness' business; here the parse is a ghost sequence)
+pub struct BinErr { pub _opaque: u64 }
+impl BinErr {
+    #[verifier::external_body]
+    pub fn is_eof(&self) -> bool { unimplemented!() }
+}
+pub struct VEntryCursor { pub rest: Ghost<Seq<HeaderEntry>> }
+pub uninterp spec fn ENTRIES(bytes: Seq<u8>) -> Seq<HeaderEntry>;
+#[verifier::external_body]
+pub fn ventry_cursor(pack: &[u8]) -> (r: VEntryCursor) ensures r.rest@ == ENTRIES(pack@), { unimplemented!() }
+#[verifier::external_body]
+pub fn vread_entry(reader: &mut VEntryCursor) -> (r: Result<HeaderEntry, BinErr>)
+    ensures
+        r matches Ok(e) ==> old(reader).rest@.len() > 0 && e == old(reader).rest@[0] && final(reader).rest@ == old(reader).rest@.drop_first(),
+        r is Err ==> final(reader).rest@ == old(reader).rest@,
+{ unimplemented!() }
+pub struct PackFileErrorKindR { pub _opaque: u64 }
+#[verifier::external_body]
+pub fn vreading_failed(e: BinErr) -> PackFileErrorKindR { unimplemented!() }
+pub open spec fn hentry_len(e: HeaderEntry) -> u32 {
+    match e { HeaderEntry::Data { len, .. } | HeaderEntry::Tree { len, .. } | HeaderEntry::CompData { len, .. } | HeaderEntry::CompTree { len, .. } => len }
+}
+pub open spec fn entries_len(es: Seq<HeaderEntry>, n: int) -> int
+    decreases n
+{
+    if n <= 0 { 0 } else { entries_len(es, n - 1) + hentry_len(es[n - 1]) as int }
+}
+pub proof fn lemma_entries_len_mono(es: Seq<HeaderEntry>, i: int, j: int)
+    requires 0 <= i <= j <= es.len(),
+    ensures 0 <= entries_len(es, i) <= entries_len(es, j),
+    decreases j
+{
+    if i < j { lemma_entries_len_mono(es, i, j - 1); } else if i > 0 { lemma_entries_len_mono(es, i - 1, j - 1); }
+}
